@@ -105,3 +105,7 @@ PLANS["C06"]["jobs"] = multi(seq_plan((3000, 8), (100000, 200)), simple("linzcac
 # C10: keys that collide completely must also stay distinct under concurrent use
 PLANS["C10"]["jobs"] = multi(keys_jobs, simple("linzmap", (1500, 0), (60000, 0), stripes_q=4))
 PLANS["C10"]["assumptions"] = PLANS["C10"]["assumptions"] + CONC_ASSUME
+
+# C11: "no entry is lost, duplicated or resurrected by a grow, a shrink or a Clear" also under concurrent use
+PLANS["C11"]["jobs"] = multi(simple("seqmap", (1200, 0), (60000, 0)), seq_plan((600, 6), (40000, 200)), simple("linzmap", (3000, 0), (100000, 0)))
+PLANS["C11"]["assumptions"] = SEQ_ASSUME + CONC_ASSUME
